@@ -511,6 +511,7 @@ func syncClientFacts(repo string) (string, string, error) {
 			}
 		}
 	}
+	copiesArg := false
 	for _, st := range setFn.Body.List {
 		as, ok := st.(*ast.AssignStmt)
 		if !ok {
@@ -518,6 +519,16 @@ func syncClientFacts(repo string) (string, string, error) {
 		}
 		for i, l := range as.Lhs {
 			p := selPath(l)
+			// policies = append([]RedirectPolicy(nil), policies...) BEFORE the closure is installed
+			if p == param && as.Tok == token.ASSIGN && !closureOverArg {
+				if call, ok := as.Rhs[i].(*ast.CallExpr); ok && selPath(call.Fun) == "append" && len(call.Args) == 2 && call.Ellipsis.IsValid() && selPath(call.Args[1]) == param {
+					if conv, ok := call.Args[0].(*ast.CallExpr); ok && len(conv.Args) == 1 && isNil(conv.Args[0]) {
+						if _, ok := conv.Fun.(*ast.ArrayType); ok {
+							copiesArg = true
+						}
+					}
+				}
+			}
 			if p == rc+".httpClient.CheckRedirect" {
 				lit, ok := as.Rhs[i].(*ast.FuncLit)
 				if !ok {
@@ -611,6 +622,7 @@ func syncClientFacts(repo string) (string, string, error) {
 		fmt.Sprintf("(* assignments to a CheckRedirect field anywhere in package req *)\nDefinition checkredirect_assignments : nat := %d.\n", checkRedirectAssignments) +
 		"(* SetRedirectPolicy starts with `if len(policies) == 0 { return c }` *)\nDefinition set_policy_empty_is_noop : bool := " + b(emptyNoop) + ".\n" +
 		"(* it assigns c.httpClient.CheckRedirect a function literal that ranges over ITS OWN ARGUMENT *)\nDefinition set_policy_installs_closure_over_argument : bool := " + b(closureOverArg) + ".\n" +
+		"(* before that it replaces its argument by a private copy: `policies = append([]RedirectPolicy(nil), policies...)` *)\nDefinition set_policy_copies_argument : bool := " + b(copiesArg) + ".\n" +
 		fmt.Sprintf("(* other fields of the receiver it writes *)\nDefinition set_policy_other_receiver_writes : nat := %d.\n", otherWrites) +
 		"(* inside the loop: `if f == nil { continue }` and `if err != nil { return err }` *)\nDefinition set_policy_skips_nil : bool := " + b(nilSkipped) + ".\nDefinition set_policy_first_error_wins : bool := " + b(firstErrWins) + ".\n" +
 		fmt.Sprintf("(* statements of the closure besides the loop, `if c.DebugLog { log }` and the final `return nil` *)\nDefinition set_policy_closure_extra_statements : nat := %d.\n", closureExtra) +
